@@ -388,6 +388,8 @@ class Case(object):
         for a in self.args:
             if a[0] == "c":
                 out.append("<%s>" % a[2])
+            elif a[0] == "d":
+                out.append("same-as-%d" % a[1])
             elif a[0] == "l":
                 out.append("lit")
             elif isbv(a[1]):
@@ -414,6 +416,8 @@ def _argdesc(a):
         return sort_str(a[1])
     if a[0] == "c":
         return "<%s>" % a[2]
+    if a[0] == "d":
+        return "=arg%d" % a[1]
     v = a[1]
     if isinstance(v, (list, tuple)):
         return "[" + ";".join(_argdesc(x) for x in v) + "]"
@@ -850,9 +854,30 @@ def infix_cases(quick):
 _CACHE = {}
 
 
+def repeated_argument_cases(cases):
+    """the same formula at two argument positions: for every case with two or more symbolic arguments of
+    one sort, the variants  f(x, .., x)  (first = last) and, from three arguments on,  f(x, x, ..)"""
+    out = []
+    for c in cases:
+        if c.dom is not DOM or c.ref is None:
+            continue
+        pos = [i for i, a in enumerate(c.args) if a[0] == "s"]
+        for i, j in ((0, -1), (0, 1)):
+            if len(pos) < 2 or (j == 1 and len(pos) < 3):
+                continue
+            pi, pj = pos[i], pos[j]
+            if c.args[pi][1] != c.args[pj][1]:
+                continue
+            args = list(c.args)
+            args[pj] = ("d", pi)
+            out.append(Case(c.group, c.name, c.api, args, c.call, c.ref, c.rs, c.must))
+    return out
+
+
 def all_cases(quick):
     if quick not in _CACHE:
         cs = ctor_cases(quick) + infix_cases(quick)
+        cs = cs + repeated_argument_cases(cs)
         seen = {}
         for c in cs:
             assert c.key not in seen, "duplicate case key %s" % c.key
@@ -893,6 +918,9 @@ def _run_case(env, case, res, seed):
             pyargs.append(m.Symbol(nm, mk_type(env, a[1])))
             symsorts[nm] = a[1]
             names.append(nm)
+        elif a[0] == "d":
+            pyargs.append(pyargs[a[1]])
+            names.append(names[a[1]])
         elif a[0] == "c":
             _, ssorts, build, _ = SHAPES[a[2]]
             nms = ["%s%d_%d" % (prefix, i, j) for j in range(len(ssorts))]
